@@ -3,12 +3,15 @@ package props
 import (
 	"fmt"
 	"go/constant"
+	"go/token"
 	"go/types"
 	"strings"
+	"sync"
 
 	"golang.org/x/tools/go/ssa"
 
 	"pv/absint"
+	"pv/bitprov"
 	"pv/core"
 )
 
@@ -261,4 +264,184 @@ func runC20(c *Ctx) {
 		r.Add(core.Obligation{Rule: "tables", Key: "tables writeHex", Func: core.FuncName(fn), Pos: c.P.Pos(fn.Pos()), Status: status,
 			Basis: "nibble < 10 -> +'0', else %10 + 'a' (4 sites)", Detail: "unexpected digit expression: " + strings.Join(bad, "; ")})
 	}
+	runC20ZeroRun(c)
+}
+
+func runC20ZeroRun(c *Ctx) {
+	r := c.R
+	r.Rule("ip6-run", "the zero run chosen for '::' is the first longest run of at least two all-zero groups", 1)
+	fn := c.P.Method("fastlog", "Line", "appendIP6")
+	if fn == nil {
+		r.Add(core.Obligation{Rule: "ip6-run", Key: "ip6-run appendIP6", Status: core.Violated, Detail: "appendIP6 not found"})
+		return
+	}
+	// the selection ends where startZ and endZ are compared
+	var stopBlock *ssa.BasicBlock
+	var startPhi, endPhi ssa.Value
+	core.EachInstr(fn, func(i ssa.Instruction) {
+		iff, ok := i.(*ssa.If)
+		if !ok || stopBlock != nil {
+			return
+		}
+		bo, ok := iff.Cond.(*ssa.BinOp)
+		if !ok || bo.Op != token.EQL {
+			return
+		}
+		name := func(v ssa.Value) string {
+			if p, ok := v.(*ssa.Phi); ok {
+				return p.Comment
+			}
+			return ""
+		}
+		a, b := name(bo.X), name(bo.Y)
+		if (a == "endZ" && b == "startZ") || (a == "startZ" && b == "endZ") {
+			stopBlock = i.Block()
+			if a == "startZ" {
+				startPhi, endPhi = bo.X, bo.Y
+			} else {
+				startPhi, endPhi = bo.Y, bo.X
+			}
+		}
+	})
+	if stopBlock == nil {
+		r.Add(core.Obligation{Rule: "ip6-run", Key: "ip6-run appendIP6", Func: core.FuncName(fn), Status: core.Violated,
+			Detail: "the point where the selected run (startZ, endZ) is complete was not recognised (comparison of startZ and endZ)"})
+		return
+	}
+	type job struct{ code [8]int } // per group: 0 zero, 1 high byte non-zero, 2 high zero / low non-zero
+	var jobs []job
+	var gen func(k int, cur [8]int)
+	gen = func(k int, cur [8]int) {
+		if k == 8 {
+			jobs = append(jobs, job{cur})
+			return
+		}
+		for v := 0; v < 3; v++ {
+			cur[k] = v
+			gen(k+1, cur)
+		}
+	}
+	gen(0, [8]int{})
+	expected := func(code [8]int) (int64, int64) {
+		bs, be, bl := -1, -1, 0
+		for i := 0; i < 8; {
+			if code[i] != 0 {
+				i++
+				continue
+			}
+			j := i
+			for j < 8 && code[j] == 0 {
+				j++
+			}
+			if l := j - i; l >= 2 && l > bl {
+				bs, be, bl = i, j-1, l
+			}
+			i = j
+		}
+		return int64(bs), int64(be)
+	}
+	type res struct {
+		bad string
+	}
+	results := make([]res, len(jobs))
+	var wg sync.WaitGroup
+	sem := make(chan struct{}, 16)
+	for idx := range jobs {
+		wg.Add(1)
+		sem <- struct{}{}
+		go func(idx int) {
+			defer wg.Done()
+			defer func() { <-sem }()
+			code := jobs[idx].code
+			ev := &bitprov.Eval{Unroll: 400, MaxPaths: 4,
+				ByteValue: func(src string, off int) (bitprov.Int, bool) {
+					if src != "ip" {
+						return bitprov.Int{}, false
+					}
+					g, hi := off/2, off%2 == 0
+					switch code[g] {
+					case 0:
+						return bitprov.ConstInt(0), true
+					case 1:
+						if hi {
+							return bitprov.NonZeroInt("nz"), true
+						}
+						return bitprov.UnknownInt("any"), true
+					default:
+						if hi {
+							return bitprov.ConstInt(0), true
+						}
+						return bitprov.NonZeroInt("nz"), true
+					}
+				},
+				StopAt: func(b *ssa.BasicBlock, value func(ssa.Value) bitprov.Val) ([]bitprov.Val, bool) {
+					if b != stopBlock {
+						return nil, false
+					}
+					return []bitprov.Val{value(startPhi), value(endPhi)}, true
+				},
+			}
+			rets := ev.Run(fn, []bitprov.Val{bitprov.Opaque{Why: "line"}, bitprov.Slice{Src: "ip", Lo: bitprov.ConstInt(0), Hi: bitprov.ConstInt(16)}})
+			ws, we := expected(code)
+			if len(rets) != 1 || len(rets[0].Vals) != 2 {
+				results[idx].bad = fmt.Sprintf("groups %v: the selection could not be evaluated (%d paths: %s)", code, len(rets), func() string {
+					if len(rets) > 0 {
+						return bitprov.RetString(rets[0])
+					}
+					return ""
+				}())
+				return
+			}
+			sv, ok1 := rets[0].Vals[0].(bitprov.Int)
+			evv, ok2 := rets[0].Vals[1].(bitprov.Int)
+			s64, c1 := sv.IsConst()
+			e64, c2 := evv.IsConst()
+			if !ok1 || !ok2 || !c1 || !c2 {
+				results[idx].bad = fmt.Sprintf("groups %v: startZ/endZ are not constants: %s", code, bitprov.RetString(rets[0]))
+				return
+			}
+			gs, ge := int64(s64), int64(e64)
+			same := (ws < 0 && gs == ge) || (ws >= 0 && gs == ws && ge == we)
+			if !same {
+				results[idx].bad = fmt.Sprintf("zero pattern %s: the code selects groups %d..%d for '::', RFC 5952 selects %s", patternString(code), gs, ge, func() string {
+					if ws < 0 {
+						return "none"
+					}
+					return fmt.Sprintf("%d..%d", ws, we)
+				}())
+			}
+		}(idx)
+	}
+	wg.Wait()
+	var bad []string
+	for _, x := range results {
+		if x.bad != "" {
+			bad = append(bad, x.bad)
+		}
+	}
+	st := core.Proved
+	det := ""
+	if len(bad) > 0 {
+		st = core.Violated
+		n := len(bad)
+		if n > 4 {
+			bad = bad[:4]
+		}
+		det = fmt.Sprintf("%d of %d abstract addresses differ, e.g. %s", n, len(jobs), strings.Join(bad, " ; "))
+	}
+	r.Add(core.Obligation{Rule: "ip6-run", Key: "ip6-run appendIP6 zero-run selection", Func: core.FuncName(fn), Pos: c.P.Pos(fn.Pos()), Status: st,
+		Basis: fmt.Sprintf("selection evaluated for all %d abstract addresses (each group: zero / high byte non-zero / low byte non-zero) and equal to RFC 5952 4.2", len(jobs)), Detail: det})
+	r.Extra["ip6_abstract_addresses"] = len(jobs)
+}
+
+func patternString(code [8]int) string {
+	var p []string
+	for _, v := range code {
+		if v == 0 {
+			p = append(p, "0")
+		} else {
+			p = append(p, "x")
+		}
+	}
+	return strings.Join(p, ":")
 }
